@@ -26,7 +26,7 @@ from pywbem._cim_http import get_cimobject_header
 
 warnings.simplefilter('ignore')
 
-R = Run('instance/class paths: 10 hosts x 8 namespaces x 4 classnames grid; single-key paths over ~190 boundary '
+R = Run('instance/class paths: 10 hosts x 8 namespaces x 4 classnames grid; single-key paths over 175 boundary '
         'leaf values (string/char16/boolean/intN min,max/realN incl INF,NaN,exponent/datetime) + all strings of '
         'length <= 3 (thorough 4) over a 10-char escaping alphabet; 2-3 key paths with case-mixed names; nested '
         'references to depth 3; seeded random composite paths; each x 6 print routes (standard, historical, '
